@@ -1128,7 +1128,39 @@ def check_clear(program, rep):
                      'afterwards')
 
 
+def check_clear_marks(program, rep, rule='C01.clear'):
+    """clear() forgets the pending marks AFTER the rows are gone: the on_remove
+    callbacks its deletions run may mark entities (delete_entity) - a mark set
+    during the loop for an entity the loop has already deleted would survive
+    a wipe that came first, and the restarted id generator hands that id out
+    again: the new entity is denied by entity_exists and deleted by the next
+    process()."""
+    cl = program.method('World', 'clear')
+    body = cl.node.body
+    wipe = [i for i, s in enumerate(body) if any(
+        isinstance(c, ast.Call) and norm(c.func) == 'self._dead_entities.clear'
+        for c in ast.walk(s)) or (isinstance(s, ast.Assign) and any(
+            norm(t) == 'self._dead_entities' for t in s.targets))]
+    loops = [i for i, s in enumerate(body) if isinstance(s, (ast.For,
+                                                             ast.While))
+             and any(isinstance(c, ast.Call) and isinstance(
+                 c.func, ast.Attribute) and c.func.attr in (
+                     '_delete_entity_now', 'delete_entity',
+                     'remove_component') for c in ast.walk(s))]
+    if not wipe or not loops:
+        return
+    rep.check(wipe[-1] > loops[-1], rule, cl.where, body[wipe[0]],
+              'the pending marks are wiped after the deletion loop',
+              'clear() wipes the pending marks BEFORE deleting the entities: '
+              'an on_remove callback of that loop that marks an already '
+              'deleted entity leaves a mark behind - the entity created next '
+              'under that id owns components but entity_exists() denies it '
+              'and the next process() deletes it',
+              line=body[wipe[0]].lineno)
+
+
 def run(program, rep, tier):
+    check_clear_marks(program, rep)
     check_clear(program, rep)
     check_owners(program, rep)
     analyse_writers(program, rep)
